@@ -1,21 +1,143 @@
 From Relic Require Import Base.Prelude Generated.C06_gen C06.Model.
 From Coq Require Import Permutation.
 
-Lemma publish_cases s :
-  publish publish_calls s =
-  (if amqp_configured s then
-     if amqp_ok s then
-       (if file_configured s then (if file_ok s then ([EAmqp true; EAppend true], true) else ([EAmqp true; EAppend false], false))
-        else ([EAmqp true], true))
-     else ([EAmqp false], false)
-   else if file_configured s then (if file_ok s then ([EAppend true], true) else ([EAppend false], false))
-   else ([], true)).
+Definition nb (b : bool) : nat := if b then 1%nat else 0%nat.
+
+(* ------------------------------------------------------------------------------------------------------------
+   PublishAudit for an arbitrary order [pc] of sink attempts (0 = AMQP, anything else = the audit file) *)
+
+(* sink c is configured and its delivery fails *)
+Definition sink_fails (c : Z) (s : sinks) : bool :=
+  if c =? 0 then amqp_configured s && negb (amqp_ok s) else file_configured s && negb (file_ok s).
+
+Lemma publish_step c r s :
+  publish (c :: r) s =
+  (let used := if c =? 0 then amqp_configured s else file_configured s in
+   let ok := if c =? 0 then amqp_ok s else file_ok s in
+   let eff := if c =? 0 then EAmqp (amqp_ok s) else EAppend (file_ok s) in
+   if used then if ok then (eff :: fst (publish r s), snd (publish r s)) else ([eff], false) else publish r s).
 Proof.
-  unfold publish_calls, publish, publish_uses_amqp, publish_uses_file. cbn.
-  destruct (amqp_configured s), (amqp_ok s), (file_configured s), (file_ok s); reflexivity.
+  cbn [publish]. unfold publish_uses_amqp, publish_uses_file.
+  destruct (c =? 0); cbv zeta; destruct (publish r s) as [e k]; cbn [fst snd];
+    destruct (amqp_configured s), (amqp_ok s), (file_configured s), (file_ok s); reflexivity.
 Qed.
 
-Definition nb (b : bool) : nat := if b then 1%nat else 0%nat.
+(* a configured sink that fails anywhere in the order makes PublishAudit fail *)
+Lemma publish_fail pc s : (exists c, In c pc /\ sink_fails c s = true) -> snd (publish pc s) = false.
+Proof.
+  induction pc as [|c r IH]; intros [c' [Hin Hf]]; [destruct Hin|].
+  rewrite publish_step. cbv zeta. destruct Hin as [<-|Hin].
+  - unfold sink_fails in Hf. destruct (c =? 0); apply andb_true_iff in Hf as [-> Hn];
+      apply negb_true_iff in Hn; rewrite Hn; reflexivity.
+  - assert (R : snd (publish r s) = false) by (apply IH; exists c'; auto).
+    destruct (if c =? 0 then amqp_configured s else file_configured s);
+      [destruct (if c =? 0 then amqp_ok s else file_ok s)|]; cbn [snd]; auto.
+Qed.
+
+(* ... and conversely, PublishAudit fails only if some configured sink failed *)
+Lemma publish_ok pc s : (forall c, In c pc -> sink_fails c s = false) -> snd (publish pc s) = true.
+Proof.
+  induction pc as [|c r IH]; intro H; [reflexivity|].
+  rewrite publish_step. cbv zeta.
+  assert (Hc := H c (or_introl eq_refl)). unfold sink_fails in Hc.
+  assert (R : snd (publish r s) = true) by (apply IH; intros c' Hin; apply H; right; exact Hin).
+  destruct (c =? 0).
+  - destruct (amqp_configured s), (amqp_ok s); cbn [snd]; try discriminate; auto.
+  - destruct (file_configured s), (file_ok s); cbn [snd]; try discriminate; auto.
+Qed.
+
+Lemma publish_no_respond pc s : existsb is_200 (fst (publish pc s)) = false.
+Proof.
+  induction pc as [|c r IH]; [reflexivity|]. rewrite publish_step. cbv zeta.
+  destruct (if c =? 0 then amqp_configured s else file_configured s); [|exact IH].
+  destruct (if c =? 0 then amqp_ok s else file_ok s); cbn [fst existsb]; destruct (c =? 0); cbn; auto.
+Qed.
+
+(* whatever the order: nothing is attempted after a failed sink *)
+Fixpoint stops_at_failure (t : list effect) : bool :=
+  match t with
+  | [] => true
+  | x :: r => if is_failed_sink x then (match r with [] => true | _ => false end) else stops_at_failure r
+  end.
+Lemma publish_stops pc s : stops_at_failure (fst (publish pc s)) = true.
+Proof.
+  induction pc as [|c r IH]; [reflexivity|]. rewrite publish_step. cbv zeta.
+  destruct (c =? 0).
+  - destruct (amqp_configured s); [|exact IH]. destruct (amqp_ok s); cbn [fst stops_at_failure is_failed_sink]; auto.
+  - destruct (file_configured s); [|exact IH]. destruct (file_ok s); cbn [fst stops_at_failure is_failed_sink]; auto.
+Qed.
+(* the outcome is success exactly when no attempted delivery failed *)
+Lemma publish_result pc s : snd (publish pc s) = negb (existsb is_failed_sink (fst (publish pc s))).
+Proof.
+  induction pc as [|c r IH]; [reflexivity|]. rewrite publish_step. cbv zeta.
+  destruct (c =? 0).
+  - destruct (amqp_configured s); [|exact IH]. destruct (amqp_ok s); cbn [fst snd existsb is_failed_sink orb negb]; auto.
+  - destruct (file_configured s); [|exact IH]. destruct (file_ok s); cbn [fst snd existsb is_failed_sink orb negb]; auto.
+Qed.
+
+(* ------------------------------------------------------------------------------------------------------------
+   serveSign with PublishAudit trying the sinks in an arbitrary order *)
+Lemma serve_p_unfold pc i g s :
+  serve_p pc serve_calls i g s =
+  if i then
+    if g then ESign true :: fst (publish pc s) ++ [ERespond (if snd (publish pc s) then 200 else 500)]
+    else [ESign false; ERespond 500]
+  else [ERespond 500].
+Proof.
+  unfold serve_calls. cbn [serve_p Z.eqb]. change (0 =? 0) with true. cbv iota.
+  destruct i; [|reflexivity].
+  change (1 =? 0) with false. change (1 =? 1) with true. cbv iota.
+  destruct g; [|reflexivity].
+  change (2 =? 0) with false. change (2 =? 1) with false. change (2 =? 2) with true. cbv iota.
+  destruct (publish pc s) as [e [|]]; reflexivity.
+Qed.
+
+Lemma sink_failure_blocks_any_order pc i g s :
+  (exists c, In c pc /\ sink_fails c s = true) -> responds_200 (serve_p pc serve_calls i g s) = false.
+Proof.
+  intro H. rewrite serve_p_unfold. destruct i, g; try reflexivity.
+  rewrite (publish_fail pc s H). unfold responds_200. cbn [existsb is_200 orb].
+  rewrite existsb_app, publish_no_respond. reflexivity.
+Qed.
+
+(* every subset of failing sinks, every order in which both sinks are tried *)
+Lemma sink_failure_blocks_every_order pc i g s :
+  In 0 pc -> In 1 pc ->
+  (amqp_configured s = true /\ amqp_ok s = false) \/ (file_configured s = true /\ file_ok s = false) ->
+  responds_200 (serve_p pc serve_calls i g s) = false.
+Proof.
+  intros H0 H1 [[Hc Hk]|[Hc Hk]]; apply sink_failure_blocks_any_order.
+  - exists 0. split; [exact H0|]. unfold sink_fails. cbn. rewrite Hc, Hk. reflexivity.
+  - exists 1. split; [exact H1|]. unfold sink_fails. cbn. rewrite Hc, Hk. reflexivity.
+Qed.
+
+(* a 200 needs every attempted sink to have succeeded, in any order *)
+Lemma response_needs_all_sinks pc i g s :
+  responds_200 (serve_p pc serve_calls i g s) = true ->
+  i = true /\ g = true /\ forall c, In c pc -> sink_fails c s = false.
+Proof.
+  intro H. destruct i; [|discriminate]. destruct g; [|discriminate]. repeat split.
+  intros c Hin. destruct (sink_fails c s) eqn:E; [|reflexivity].
+  rewrite sink_failure_blocks_any_order in H; [discriminate|]. exists c. auto.
+Qed.
+
+Lemma two_orders (pc : list Z) : Permutation [0; 1] pc -> pc = [0; 1] \/ pc = [1; 0].
+Proof. apply Permutation_length_2_inv. Qed.
+
+(* both orders: a 200 is preceded by exactly one delivered record per configured sink *)
+Lemma audit_before_response_every_order pc init_ok sign_ok s :
+  Permutation [0; 1] pc ->
+  responds_200 (serve_p pc serve_calls init_ok sign_ok s) = true ->
+  let pre := before_200 (serve_p pc serve_calls init_ok sign_ok s) in
+  count_ok_amqp pre = nb (amqp_configured s) /\ count_ok_append pre = nb (file_configured s) /\
+  In (ESign true) pre /\ init_ok = true /\ sign_ok = true.
+Proof.
+  intros P. destruct (two_orders pc P) as [-> | ->]; destruct s as [ac fc ao fo];
+    destruct init_ok, sign_ok, ac, fc, ao, fo; vm_compute; intro H; try discriminate; repeat split; auto.
+Qed.
+
+(* ------------------------------------------------------------------------------------------------------------
+   the code's own order (generated table publish_calls) *)
 
 (* server: a 200 response is preceded by exactly one successful record per configured sink, after the signature *)
 Lemma audit_before_response init_ok sign_ok s :
@@ -24,13 +146,7 @@ Lemma audit_before_response init_ok sign_ok s :
   count_ok_amqp pre = nb (amqp_configured s) /\ count_ok_append pre = nb (file_configured s) /\
   In (ESign true) pre /\ init_ok = true /\ sign_ok = true.
 Proof.
-  unfold serve_sign, serve_calls. cbn [serve Z.eqb]. change (0 =? 0) with true. cbv iota.
-  destruct init_ok; [|cbn; discriminate].
-  change (1 =? 0) with false. change (1 =? 1) with true. cbv iota.
-  destruct sign_ok; [|cbn; discriminate].
-  change (2 =? 0) with false. change (2 =? 1) with false. change (2 =? 2) with true. cbv iota.
-  rewrite publish_cases.
-  destruct (amqp_configured s), (amqp_ok s), (file_configured s), (file_ok s); cbn; intro H; try discriminate;
+  destruct s as [ac fc ao fo]; destruct init_ok, sign_ok, ac, fc, ao, fo; vm_compute; intro H; try discriminate;
     repeat split; auto.
 Qed.
 
@@ -39,14 +155,9 @@ Lemma sink_failure_blocks init_ok sign_ok s :
   (amqp_configured s = true /\ amqp_ok s = false) \/ (file_configured s = true /\ file_ok s = false) ->
   responds_200 (serve_sign init_ok sign_ok s) = false.
 Proof.
-  unfold serve_sign, serve_calls. cbn [serve Z.eqb]. change (0 =? 0) with true. cbv iota.
-  destruct init_ok; [|reflexivity].
-  change (1 =? 0) with false. change (1 =? 1) with true. cbv iota.
-  destruct sign_ok; [|reflexivity].
-  change (2 =? 0) with false. change (2 =? 1) with false. change (2 =? 2) with true. cbv iota.
-  rewrite publish_cases.
-  intros [[H1 H2]|[H1 H2]]; rewrite H1, H2; destruct (amqp_configured s), (amqp_ok s), (file_configured s), (file_ok s);
-    try discriminate; reflexivity.
+  destruct s as [ac fc ao fo]. cbn [amqp_configured amqp_ok file_configured file_ok].
+  intros [[-> ->]|[-> ->]]; destruct init_ok, sign_ok; try destruct ac; try destruct fc; try destruct ao; try destruct fo;
+    reflexivity.
 Qed.
 
 (* when everything works the response is a 200 *)
@@ -54,12 +165,18 @@ Lemma all_ok_responds s :
   (amqp_configured s = true -> amqp_ok s = true) -> (file_configured s = true -> file_ok s = true) ->
   responds_200 (serve_sign true true s) = true.
 Proof.
-  unfold serve_sign, serve_calls. cbn [serve Z.eqb]. change (0 =? 0) with true. cbv iota.
-  change (1 =? 0) with false. change (1 =? 1) with true. cbv iota.
-  change (2 =? 0) with false. change (2 =? 1) with false. change (2 =? 2) with true. cbv iota.
-  rewrite publish_cases. intros H1 H2.
-  destruct (amqp_configured s), (amqp_ok s), (file_configured s), (file_ok s); try reflexivity;
+  destruct s as [ac fc ao fo]. cbn [amqp_configured amqp_ok file_configured file_ok]. intros H1 H2.
+  destruct ac, fc, ao, fo; try reflexivity;
     try (specialize (H1 eq_refl); discriminate); try (specialize (H2 eq_refl); discriminate).
+Qed.
+
+(* a request produces at most one record per sink and at most one response (no duplicates) *)
+Lemma at_most_one_record init_ok sign_ok s :
+  let t := serve_sign init_ok sign_ok s in
+  (count_ok_amqp t <= 1)%nat /\ (count_ok_append t <= 1)%nat /\ (count_200 t <= 1)%nat /\
+  (attempts_amqp t <= 1)%nat /\ (attempts_append t <= 1)%nat.
+Proof.
+  destruct s as [ac fc ao fo]; destruct init_ok, sign_ok, ac, fc, ao, fo; vm_compute; repeat split; auto.
 Qed.
 
 (* standalone: success (exit 0) implies exactly one record per configured sink *)
@@ -67,19 +184,62 @@ Lemma standalone_success_audited init_ok sign_ok apply_ok s e :
   sign_cmd init_ok sign_ok apply_ok s = (e, true) ->
   count_ok_amqp e = nb (amqp_configured s) /\ count_ok_append e = nb (file_configured s) /\ In (ESign true) e.
 Proof.
-  unfold sign_cmd, standalone_calls. cbn [standalone Z.eqb]. change (0 =? 0) with true. cbv iota.
-  destruct init_ok; [|discriminate].
-  change (1 =? 0) with false. change (1 =? 1) with true. cbv iota.
-  destruct sign_ok; [|discriminate].
-  change (2 =? 0) with false. change (2 =? 1) with false. change (2 =? 2) with true. cbv iota.
-  destruct apply_ok; [|discriminate].
-  change (3 =? 0) with false. change (3 =? 1) with false. change (3 =? 2) with false. change (3 =? 3) with true. cbv iota.
-  change (4 =? 0) with false. change (4 =? 1) with false. change (4 =? 2) with false. change (4 =? 3) with false. cbv iota.
-  rewrite publish_cases.
-  destruct (amqp_configured s), (amqp_ok s), (file_configured s), (file_ok s); cbn; intro H; inversion H; subst; cbn;
-    repeat split; auto.
+  destruct s as [ac fc ao fo]; destruct init_ok, sign_ok, apply_ok, ac, fc, ao, fo; vm_compute; intro H;
+    try discriminate; inversion H; subst; repeat split; auto.
 Qed.
 
+(* standalone: a failing sink makes the command fail *)
+Lemma standalone_sink_failure_fails init_ok sign_ok apply_ok s :
+  (amqp_configured s = true /\ amqp_ok s = false) \/ (file_configured s = true /\ file_ok s = false) ->
+  snd (sign_cmd init_ok sign_ok apply_ok s) = false.
+Proof.
+  destruct s as [ac fc ao fo]. cbn [amqp_configured amqp_ok file_configured file_ok].
+  intros [[-> ->]|[-> ->]]; destruct init_ok, sign_ok, apply_ok; try destruct ac; try destruct fc; try destruct ao;
+    try destruct fo; reflexivity.
+Qed.
+
+(* ------------------------------------------------------------------------------------------------------------
+   sequences of requests: totals of records and responses *)
+Lemma count_app p a b : count p (a ++ b) = (count p a + count p b)%nat.
+Proof. unfold count. rewrite filter_app, app_length. reflexivity. Qed.
+
+Lemma serve_all_cons ac fc r rs : serve_all ac fc (r :: rs) = serve_req ac fc r ++ serve_all ac fc rs.
+Proof. reflexivity. Qed.
+
+Lemma req_totals ac fc r :
+  let t := serve_req ac fc r in
+  (nb ac * count_200 t <= count_ok_amqp t)%nat /\ (nb fc * count_200 t <= count_ok_append t)%nat /\
+  (healthy r = true -> count_ok_amqp t = nb ac * count_200 t /\ count_ok_append t = nb fc * count_200 t)%nat.
+Proof.
+  destruct r as [i g ao fo]; destruct ac, fc, i, g, ao, fo; vm_compute; repeat split; auto; discriminate.
+Qed.
+
+(* every returned signature is covered by a record in each configured sink *)
+Lemma responses_covered_by_records ac fc rs :
+  let t := serve_all ac fc rs in
+  (nb ac * count_200 t <= count_ok_amqp t)%nat /\ (nb fc * count_200 t <= count_ok_append t)%nat.
+Proof.
+  induction rs as [|r rs IH]; [destruct ac, fc; vm_compute; auto|].
+  cbv zeta in *. rewrite serve_all_cons. unfold count_200, count_ok_amqp, count_ok_append in *. rewrite !count_app.
+  destruct (req_totals ac fc r) as [A [B _]]. cbv zeta in A, B. unfold count_200, count_ok_amqp, count_ok_append in A, B.
+  destruct IH as [IA IB]. destruct ac, fc; cbn [nb] in *; lia.
+Qed.
+
+(* with healthy sinks: #records in the file = #records at the broker = #signatures returned *)
+Lemma records_equal_responses ac fc rs :
+  forallb healthy rs = true ->
+  let t := serve_all ac fc rs in
+  count_ok_amqp t = (nb ac * count_200 t)%nat /\ count_ok_append t = (nb fc * count_200 t)%nat.
+Proof.
+  induction rs as [|r rs IH]; intro H; [destruct ac, fc; vm_compute; auto|].
+  cbn [forallb] in H. apply andb_true_iff in H as [Hr Hrs]. specialize (IH Hrs).
+  cbv zeta in *. rewrite serve_all_cons. unfold count_200, count_ok_amqp, count_ok_append in *. rewrite !count_app.
+  destruct (req_totals ac fc r) as [_ [_ C]]. cbv zeta in C. specialize (C Hr).
+  unfold count_200, count_ok_amqp, count_ok_append in C. destruct C as [CA CB]. destruct IH as [IA IB].
+  destruct ac, fc; cbn [nb] in *; lia.
+Qed.
+
+(* ------------------------------------------------------------------------------------------------------------ *)
 Lemma single_write_per_record : append_writes = 1.
 Proof. reflexivity. Qed.
 
